@@ -289,6 +289,20 @@ class DefaultRealizationFilter(RealizationFilter):
         failed_realizations = np.isnan(constraints[..., 0])
         constraints = np.nan_to_num(constraints[..., self._filter_options.sort])
         assert self._enopt_config.nonlinear_constraints is not None
+        # The worst realizations are those closest to, or farthest beyond, the
+        # bounds of the constraint: the largest values for an upper bound, the
+        # smallest for a lower bound, and those farthest from the target for
+        # an equality constraint:
+        lower_bound = self._enopt_config.nonlinear_constraints.lower_bounds[
+            self._filter_options.sort
+        ]
+        upper_bound = self._enopt_config.nonlinear_constraints.upper_bounds[
+            self._filter_options.sort
+        ]
+        if np.isfinite(lower_bound) or np.isfinite(upper_bound):
+            constraints = np.maximum(
+                lower_bound - constraints, constraints - upper_bound
+            )
         return _get_cvar_weights_from_percentile(
             -constraints, failed_realizations, self._filter_options.percentile
         )
@@ -322,13 +336,17 @@ def _get_cvar_weights_from_percentile(
     # nan values are sorted to the end, drop them:
     indices = indices[: np.count_nonzero(~failed_realizations)]
 
+    weights = np.zeros(values.size)
+    if indices.size == 0:
+        return weights
+
     p_max = 1.0 / indices.size
     n_var = int(percentile * indices.size)
     p_var = percentile - n_var * p_max
 
-    weights = np.zeros(values.size)
     weights[indices[:n_var]] = p_max
-    if n_var < indices.size:
+    # Due to rounding p_var may become slightly negative, skip it then:
+    if n_var < indices.size and p_var > 0:
         weights[indices[n_var]] = p_var
     return weights
 
